@@ -241,8 +241,9 @@ def r3_pass_through(ctx):
         t = norm(v)
         conds = conditions_at(d)
         if isinstance(v, (ast.Constant, ast.UnaryOp)) and literal(v) == -1:
-            ok = any(a.pol and "none" in a.text and "regressor" in a.text
-                     for a in conds)
+            ok = any(a.pol and _is_none_regressor(a.node) for a in conds) \
+                and not any(a.pol and isinstance(a.node, ast.BoolOp)
+                            and "none" in a.text for a in conds)
             ctx.check(ok, d, "-1 only for the pseudo regressor 'none'",
                       "rate_quality returns -1 outside the 'none' case")
             kinds.add("none")
@@ -287,6 +288,13 @@ def r3_pass_through(ctx):
     ctx.check(ok, chain, "second test: NaN features",
               "undefined features are not tested before predicting")
     if ok:
+        ctx.check(_any_nan(nxt.test), nxt, "-1 as soon as ANY feature is "
+                  "NaN",
+                  f"the NaN test `{norm(nxt.test)[:60]}` is not 'some "
+                  f"feature is NaN': a sample with only part of its "
+                  f"features undefined reaches the regressor (prediction "
+                  f"from NaN, or ValueError) instead of being rated -1")
+    if ok:
         v1 = [literal(s.value) for s in nxt.body if isinstance(s, ast.Assign)]
         ctx.check(v1 == [-1], nxt, "NaN features rated -1",
                   f"undefined features are rated {v1}")
@@ -300,6 +308,44 @@ def r3_pass_through(ctx):
               "exclusion iff a binary feature equals 0",
               "the exclusion test is no longer 'some binary feature == 0' "
               "(NaN binary features of unfitted curves must not exclude)")
+
+
+def _is_none_regressor(nd):
+    """`regressor.lower() == 'none'` (or without .lower())"""
+    if not (isinstance(nd, ast.Compare) and len(nd.ops) == 1 and isinstance(
+            nd.ops[0], ast.Eq)):
+        return False
+    sides = [norm(nd.left), norm(nd.comparators[0])]
+    return "'none'" in sides and any(
+        s in ("regressor.lower()", "regressor") for s in sides)
+
+
+def _any_nan(test):
+    """truthy iff at least one entry is NaN: isnan(sum(x)), any(isnan(x)),
+    isnan(x).any(), sum(isnan(x)), count_nonzero(isnan(x))"""
+    t = test
+    if isinstance(t, ast.Call) and call_name(t) == "bool" and t.args:
+        t = t.args[0]
+    if not isinstance(t, ast.Call):
+        return False
+    cn = call_name(t) or ""
+    short = cn.split(".")[-1]
+
+    def isnan_of(e):
+        return isinstance(e, ast.Call) and (call_name(e) or "").split(
+            ".")[-1] == "isnan" and len(e.args) == 1
+    if short == "isnan" and t.args:
+        a = t.args[0]
+        return isinstance(a, ast.Call) and (call_name(a) or "").split(
+            ".")[-1] in ("sum", "mean", "min", "max", "prod") or (
+            isinstance(a, ast.Call) and isinstance(a.func, ast.Attribute)
+            and a.func.attr in ("sum", "mean"))
+    if short in ("any", "sum", "count_nonzero"):
+        if t.args and isnan_of(t.args[0]):
+            return True
+        if isinstance(t.func, ast.Attribute) and isnan_of(t.func.value):
+            return True
+    return False
 
 
 def _some_zero(e, arg, R):
